@@ -1639,6 +1639,30 @@ class SpaceUpdater(SharedSpaceOperations):
             Instruction(self._update_derived_refs, (node,))
         )
 
+    def _check_relative_refs(self, nodes, own_names=()):
+        """Raise if a relative reference to be derived is out of scope
+
+        Called before anything is derived so that the rejected edit
+        changes nothing.
+        """
+        for n in nodes:
+            names = set(own_names)
+            space = self._graph.nodes[n].get("space")
+            if space is not None:
+                names.update(
+                    k for k, r in space.own_refs.items() if r.is_defined())
+            for b in self._graph.get_mro(n)[1:]:
+                for name, ref in self._graph.to_space(b).own_refs.items():
+                    if name in names or not ref.is_defined():
+                        continue
+                    names.add(name)
+                    if (ref.refmode == "relative" and ref.has_interface()
+                            and not self._graph.get_relative(
+                                n, b, ref.interface._impl.idstr)):
+                        raise ValueError(
+                            "Relative reference %s.%s out of scope"
+                            % (n, name))
+
     def _update_derived_refs(self, node):
         space = self._graph.to_space(node)
         bases = self._get_space_bases(space, self._graph)
@@ -1739,6 +1763,8 @@ class SpaceUpdater(SharedSpaceOperations):
         if conflict:
             raise NameError("name conflict: %s" % conflict)
 
+        self._check_relative_refs([node], own_names=refs or ())
+
         if container is None:
             container = parent._named_spaces
 
@@ -1823,6 +1849,7 @@ class SpaceUpdater(SharedSpaceOperations):
 
         # The space and its sub spaces, bases first
         affected = list(self._graph.ordered_subs(node))
+        self._check_relative_refs(affected)
         for n in affected:
             self._instructions.append(
                 Instruction(self._update_derived_space, (n,)))
